@@ -85,6 +85,14 @@ def firstErr : List (Bool × Err) → Option Err
 def vNoGlobal (v : VarArg) : List (Bool × Err) := [(v == .global, .eglobal), (v == .bad, .enotvar)]
 def vOrGlobal (v : VarArg) : List (Bool × Err) := [(v == .bad, .enotvar)]
 
+/-- bytes per element of a type class (CDF format specification) -/
+def elemSize : XT → Nat
+  | .x1 => 1 | .x2 => 2 | .x4 => 4 | .x8 => 8
+
+/-- header space of an attribute's values: `nelems` elements, padded to a 4-byte boundary
+    (CDF format specification: "values ... padded to 4-byte boundary") -/
+def headerBytes (t : XT) (n : Nat) : Nat := (elemSize t * n + 3) / 4 * 4
+
 /-- growing / creating something in the header is only possible in define mode -/
 def growsInData (grows : Bool) (m : Mode) : Option Err :=
   if grows && m != .define then some .enotindefine else none
@@ -106,28 +114,28 @@ def rule (a : AState) : Call → Rule
   | .delAtt v nb ex    => { writes := true,  wh := .defineOnly,
                             args := vOrGlobal v ++ [(nb, .ebadname), (!ex, .enotatt)] }
   -- attributes and renaming: any mode, but nothing may grow in data mode
-  | .putAtt v nb tb cm nl ex grows =>
+  | .putAtt v nb tb cm nl ex ot on nt nn =>    -- "larger than the old one": needs more header space
                           { writes := true,  wh := .anyMode,
                             args := vOrGlobal v ++ [(nb, .ebadname), (tb, .ebadtype), (cm, .echar), (nl, .einval)],
-                            late := growsInData (!ex || grows) a.mode }
+                            late := growsInData (!ex || headerBytes nt nn > headerBytes ot on) a.mode }
   | .getAtt v nb ex    => { writes := false, wh := .anyMode,
                             args := vOrGlobal v ++ [(nb, .ebadname), (!ex, .enotatt)] }
-  | .copyAtt vib vob nb sex dex grows =>
+  | .copyAtt vib vob nb sex dex st sn dt dn =>
                           { writes := true,  wh := .anyMode,
                             args := [(vib, .enotvar), (vob, .enotvar), (nb, .ebadname), (!sex, .enotatt)],
-                            late := growsInData (!dex || grows) a.mode }
-  | .renameAtt v nb ex inUse longer =>
+                            late := growsInData (!dex || headerBytes st sn > headerBytes dt dn) a.mode }
+  | .renameAtt v nb ex inUse oldLen newLen =>  -- "if the new name is longer than the old name"
                           { writes := true,  wh := .anyMode,
                             args := vOrGlobal v ++ [(nb, .ebadname), (!ex, .enotatt), (inUse, .enameinuse)],
-                            late := growsInData longer a.mode }
-  | .renameVar v nb inUse longer =>
+                            late := growsInData (oldLen < newLen) a.mode }
+  | .renameVar v nb inUse oldLen newLen =>
                           { writes := true,  wh := .anyMode,
                             args := vNoGlobal v ++ [(nb, .ebadname), (inUse, .enameinuse)],
-                            late := growsInData longer a.mode }
-  | .renameDim nb db inUse longer =>                      -- name before dimid: undocumented order
+                            late := growsInData (oldLen < newLen) a.mode }
+  | .renameDim nb db inUse oldLen newLen =>                      -- name before dimid: undocumented order
                           { writes := true,  wh := .anyMode,
                             args := [(nb, .ebadname), (db, .ebaddim), (inUse, .enameinuse)],
-                            late := growsInData longer a.mode }
+                            late := growsInData (oldLen < newLen) a.mode }
   -- blocking data access: collective APIs in collective data mode, independent in independent
   | .rw isPut coll v text cb _ =>
                           { writes := isPut, wh := if coll then .collOnly else .indepOnly,
